@@ -317,12 +317,21 @@ GEN_THEOREMS = {
     "C12": ("CoreDhcp.Props.GenDispatch6", ["GEN_replyKind6_eq", "GEN_stub6_eq", "GEN_replyKind6_spec", "GEN_replyKind6_table", "GEN_replyKind6_all", "GEN_pinIf6_eq", "GEN_woob6_eq", "GEN_dispatch6_eq"]),
     "C14": ("CoreDhcp.Props.GenServerID6", ["GEN_sidDecision_spec", "GEN_sidDecision_table", "GEN_sidDecision_all", "GEN_sidDecision_model", "GEN_sidDecision_rel6"]),
     "C19": ("CoreDhcp.Props.GenNetmask", ["GEN_checkValidNetmask_eq", "GEN_checkValidNetmask_masks"]),
+    # the DHCPv4 request handlers of all twelve option plugins, regenerated (unit handlers4)
+    "C17": ("CoreDhcp.Props.GenHandlers4", ["GEN_h4_mtu_eq", "GEN_h4_netmask_eq", "GEN_h4_router_eq", "GEN_h4_dns_eq", "GEN_h4_leasetime_eq", "GEN_h4_searchdomains_eq",
+                                            "GEN_h4_staticroute_eq", "GEN_h4_ipv6only_eq", "GEN_h4_autoconfigure_eq", "GEN_h4_sleep_eq", "GEN_h4_nbp_eq", "GEN_h4_nbp_unset"]),
     # bitmap_ipv4.go, regenerated as a whole (unit alloc4): the IPv4 halves of C04-C07 rest on it
     "C04": ("CoreDhcp.Props.GenAlloc4", ["GEN_a4_allocate_eq", "GEN_a4_free_eq"]),
     "C05": ("CoreDhcp.Props.GenAlloc4", ["GEN_a4_allocate_eq'", "GEN_a4_new_eq", "GEN_a4_toIP_eq", "GEN_a4_toIP_ofNat", "GEN_a4_toIP_panic_iff"]),
     "C06": ("CoreDhcp.Props.GenAlloc4", ["GEN_a4_free_eq", "GEN_a4_toOffset_eq"]),
     "C07": ("CoreDhcp.Props.GenAlloc4", ["GEN_a4_allocate_eq", "GEN_a4_toOffset_eq"]),
 }
+GEN_THEOREMS_MORE = [
+    ("C14", "CoreDhcp.Props.GenHandlers4", ["GEN_h4_serverid_eq"]),
+]
 for _p, (_m, _t) in GEN_THEOREMS.items():
+    PROPS[_p]["theorems"] = PROPS[_p]["theorems"] + _t
+    PROPS[_p]["modules"] = PROPS[_p]["modules"] + [_m]
+for _p, _m, _t in GEN_THEOREMS_MORE:
     PROPS[_p]["theorems"] = PROPS[_p]["theorems"] + _t
     PROPS[_p]["modules"] = PROPS[_p]["modules"] + [_m]
